@@ -122,12 +122,14 @@ theorem C18_id_is_mac (i : Info) :
 /-! ## ordering of the refresh -/
 
 /-- In every trace of the response-processing model (any pairing table, any verified sessions,
-    any requests on any connections, session teardown after removals, any scheduling of executor jobs, loop callbacks and deferred responses): whenever a refreshed
-    record caused by request `rid` is handed to the advertiser, the response of request `rid` was
-    written earlier (`log` is newest-first, so `earlier` is the part of the log before it). -/
+    any requests on any connections, session teardown after removals, any scheduling of executor
+    jobs, loop callbacks and deferred responses, any application calls of `config_changed`,
+    `update_advertisement` and `unpair` in between): whenever a refreshed record caused by request
+    `rid` is handed to the advertiser, the response of request `rid` was written earlier (`log` is
+    newest-first, so `earlier` is the part of the log before it). -/
 theorem C18_advert_after_response (info : Info) (p : Pairings) (sessions : List (Nat × Client))
     (steps : List Step) (later earlier : List Obs) (rid : Nat) (txt : List (String × String))
-    (h : (run (init info p sessions) steps).log = later ++ Obs.publish rid txt :: earlier) :
+    (h : (run (init info p sessions) steps).log = later ++ Obs.publish (some rid) txt :: earlier) :
     ∃ conn, Obs.write conn rid ∈ earlier :=
   (good_run _ steps (good_init info p sessions)).ord.split later earlier rid txt h
 
@@ -137,19 +139,60 @@ theorem C18_advert_after_response (info : Info) (p : Pairings) (sessions : List 
     trace — no entry is ever attributed to a request that has not happened yet. -/
 theorem C18_request_ids_fresh (info : Info) (p : Pairings) (sessions : List (Nat × Client))
     (steps : List Step) :
-    ∀ o ∈ (run (init info p sessions) steps).log, o.rid < (run (init info p sessions) steps).nextRid :=
+    ∀ o ∈ (run (init info p sessions) steps).log, ∀ r, o.rid = some r →
+      r < (run (init info p sessions) steps).nextRid :=
   (fresh_run _ steps (fresh_init info p sessions)).log
 
-/-- Every record handed to the advertiser in a trace states the pairing status of that moment:
-    `sf = "1"` iff no controller is paired when the record is built. -/
-theorem C18_published_sf_exact (s : Sys) (st : Step) (rid : Nat) (txt : List (String × String))
-    (h : (step s st).log = Obs.publish rid txt :: s.log) :
-    (lookup "sf" txt = some "1" ↔ s.paired = []) := by
-  have key : ∀ t, t = record s → (lookup "sf" t = some "1" ↔ s.paired = []) := by
-    intro t e; subst e; rw [record_sf]; unfold sfFor
-    cases hp : s.paired with
-    | nil => simp
-    | cons a b => simp
+/-- The last step of pairing and of unpairing does schedule a refresh, and only after its own
+    response write: a served request whose handling takes the pairing table from empty to
+    non-empty or back (pair-setup M5, a remove-pairing that leaves nobody paired — directly or
+    through the last-admin rule) is never a deferred response, never carries a session key, logs
+    its response write and *then* hands exactly one `finish_pair` job tagged with it to the executor. -/
+theorem C18_pairing_step_schedules_refresh (s : Sys) (conn : Nat) (r : Req)
+    (hc : isClosed s conn = false)
+    (hflip : (handle s.paired (sessionOf s conn) r).1.isEmpty ≠ s.paired.isEmpty) :
+    (step s (.request conn r)).log = Obs.write conn s.nextRid :: s.log ∧
+    (step s (.request conn r)).execQ = s.execQ ++ [s.nextRid] := by
+  have hp : (handle s.paired (sessionOf s conn) r).2.pairingChanged = true := by
+    cases h : (handle s.paired (sessionOf s conn) r).2.pairingChanged
+    · exact absurd (handle_unchanged _ _ _ h) hflip
+    · rfl
+  have ht := handle_changed_not_task _ _ _ hp
+  have hk := handle_changed_not_sharedKey _ _ _ hp
+  simp only [step, hc, Bool.false_eq_true, if_false, processResponse, ht, hk, hp, if_true]
+  cases (handle s.paired (sessionOf s conn) r).2.pairingRemoved <;> simp
+
+/-- Every record handed to the advertiser in a trace is built from the state of that moment:
+    it is `record s`, whose `sf` is "1" iff no controller is paired, whose `c#` is the current
+    configuration number and whose `id` / `ci` / `md` are the accessory's. -/
+theorem C18_published_record_exact (s : Sys) (st : Step) (cause : Option Nat) (txt : List (String × String))
+    (h : (step s st).log = Obs.publish cause txt :: s.log) :
+    txt = record s ∧
+    (lookup "sf" txt = some "1" ↔ s.paired = []) ∧
+    lookup "c#" txt = some (toString s.info.cfg) ∧
+    lookup "id" txt = some (String.ofList s.info.mac) ∧
+    lookup "ci" txt = some (toString s.info.category) ∧
+    lookup "md" txt = some (String.ofList (validName s.info.display)) := by
+  have key : txt = record s → txt = record s ∧
+      (lookup "sf" txt = some "1" ↔ s.paired = []) ∧
+      lookup "c#" txt = some (toString s.info.cfg) ∧
+      lookup "id" txt = some (String.ofList s.info.mac) ∧
+      lookup "ci" txt = some (toString s.info.category) ∧
+      lookup "md" txt = some (String.ofList (validName s.info.display)) := by
+    intro e
+    subst e
+    refine ⟨rfl, ?_, record_cfg s, ?_, ?_, ?_⟩
+    · rw [record_sf]; unfold sfFor
+      cases hp : s.paired with
+      | nil => simp
+      | cons a b => simp
+    · simp [record, advertData, lookup]
+    · simp [record, advertData, lookup]
+    · simp [record, advertData, lookup]
+  have hlen : ∀ {l : List Obs} {o : Obs}, l = o :: l → False := by
+    intro l o e
+    have := congrArg List.length e
+    simp at this
   cases st with
   | request conn r =>
     exfalso
@@ -182,29 +225,98 @@ theorem C18_published_sf_exact (s : Sys) (st : Step) (rid : Nat) (txt : List (St
     | none => simp [hd] at h
     | some r =>
       simp only [hd, List.cons.injEq, Obs.publish.injEq, and_true] at h
-      exact key txt h.2.symm
+      exact key h.2.symm
+  | configChanged => exact (hlen h).elim
+  | appRefresh => exact (hlen h).elim
+  | appUnpair c =>
+    exfalso
+    simp only [step] at h
+    split at h <;> exact hlen h
 
-/-- The advertised flag follows the pairing state: in every trace, once no refresh is pending
-    (executor and loop queues empty) the record held by the advertiser — the newest published
-    one, or the one registered at start — says `sf = "1"` iff no controller is paired. -/
+/-- Over every trace (requests, schedules, application calls) started with a configuration
+    number in range: every record ever handed to the advertiser is the TXT record of this
+    accessory — its name, category, MAC and setup hash — with a configuration number in 1..65535;
+    in particular the advertised identifier is always the accessory's and `c#` never leaves the range,
+    also when `config_changed` wraps it at 65535. -/
+theorem C18_published_records_wellformed (info : Info) (p : Pairings) (sessions : List (Nat × Client))
+    (steps : List Step) (hcfg : 1 ≤ info.cfg ∧ info.cfg ≤ 65535)
+    (cause : Option Nat) (txt : List (String × String))
+    (h : Obs.publish cause txt ∈ (run (init info p sessions) steps).log) :
+    ∃ n, 1 ≤ n ∧ n ≤ 65535 ∧ lookup "c#" txt = some (toString n) ∧
+      lookup "id" txt = some (String.ofList info.mac) ∧
+      lookup "ci" txt = some (toString info.category) ∧
+      lookup "md" txt = some (String.ofList (validName info.display)) ∧
+      lookup "sh" txt = some info.setupHash ∧
+      (lookup "sf" txt = some "0" ∨ lookup "sf" txt = some "1") := by
+  obtain ⟨n, pf, h1, h2, rfl⟩ := (pub_run info _ steps (pub_init info p sessions hcfg)).log cause txt h
+  refine ⟨n, h1, h2, ?_, ?_, ?_, ?_, ?_, ?_⟩ <;> try (simp [advertData, lookup])
+
+/-- `config_changed` moves the configuration number like `increment_config_version`: +1, and
+    65535 wraps to 1 (never 0, never 65536); nothing else in a trace touches it. -/
+theorem C18_config_changed_wraps (s : Sys) :
+    (step s .configChanged).info.cfg = bump s.info.cfg ∧ bump 65535 = 1 ∧
+    (∀ n, n < 65535 → bump n = n + 1) ∧ (∀ n, 1 ≤ bump n ∧ bump n ≤ 65535) :=
+  ⟨rfl, bump_wrap, bump_succ, bump_range⟩
+
+/-- The advertisement follows the state: in every trace without application-level `unpair`
+    calls, once no refresh is pending (executor and loop queues empty) the record held by the
+    advertiser — the newest published one, or the one registered at start — is the record of the
+    current state: `sf = "1"` iff no controller is paired, and `c#` is the current number. -/
 theorem C18_sf_tracks_pairing (info : Info) (p : Pairings) (sessions : List (Nat × Client))
-    (steps : List Step)
+    (steps : List Step) (hst : ∀ st ∈ steps, st.isAppUnpair = false)
     (he : (run (init info p sessions) steps).execQ = [])
     (hl : (run (init info p sessions) steps).loopQ = []) :
-    advertisedSf (initialSf info p) (run (init info p sessions) steps).log
-      = some (if (run (init info p sessions) steps).paired.isEmpty then "1" else "0") := by
-  rcases track_run _ _ steps (track_init info p sessions) with h | h
+    advertised (initialRecord info p) (run (init info p sessions) steps).log
+      = record (run (init info p sessions) steps) ∧
+    advertisedSf (initialRecord info p) (run (init info p sessions) steps).log
+      = some (if (run (init info p sessions) steps).paired.isEmpty then "1" else "0") ∧
+    lookup "c#" (advertised (initialRecord info p) (run (init info p sessions) steps).log)
+      = some (toString (run (init info p sessions) steps).info.cfg) := by
+  rcases track_run _ _ steps hst (track_init info p sessions) with h | h
+  · rcases h with h | h
+    · exact absurd he h
+    · exact absurd hl h
+  · refine ⟨h, ?_, ?_⟩
+    · unfold advertisedSf; rw [h, record_sf]; rfl
+    · rw [h, record_cfg]
+
+/-- `AccessoryDriver.unpair` called by the application (not through a remove-pairing request)
+    changes the pairing table without any refresh; the flag is right again as soon as the
+    application asks for one: after *any* history, `update_advertisement()` followed by any
+    history free of further application-level unpairs leaves, at quiescence, the record of the
+    current state with the advertiser. -/
+theorem C18_sf_tracks_after_explicit_refresh (info : Info) (p : Pairings) (sessions : List (Nat × Client))
+    (pre post : List Step) (hst : ∀ st ∈ post, st.isAppUnpair = false)
+    (he : (run (init info p sessions) (pre ++ .appRefresh :: post)).execQ = [])
+    (hl : (run (init info p sessions) (pre ++ .appRefresh :: post)).loopQ = []) :
+    advertised (initialRecord info p) (run (init info p sessions) (pre ++ .appRefresh :: post)).log
+      = record (run (init info p sessions) (pre ++ .appRefresh :: post)) := by
+  have e : run (init info p sessions) (pre ++ .appRefresh :: post)
+      = run (step (run (init info p sessions) pre) .appRefresh) post := by
+    rw [run_append]; rfl
+  rw [e] at he hl ⊢
+  rcases track_run (initialRecord info p) _ post hst (track_refresh _ _) with h | h
   · rcases h with h | h
     · exact absurd he h
     · exact absurd hl h
   · exact h
+
+/-- What the driver-API `unpair` alone does: the last admin is removed by the application, nothing
+    is pending, and the advertiser still holds `sf = "0"` although nobody is paired. (Outside the
+    request paths the property speaks about; recorded so that the hypothesis of
+    `C18_sf_tracks_pairing` is seen to be needed.) -/
+theorem C18_api_unpair_leaves_flag_stale :
+    let s := run (init ⟨['x'], 1, [], 1, false, ""⟩ [(7, true)] []) [.appUnpair 7]
+    s.paired = [] ∧ s.execQ = [] ∧ s.loopQ = [] ∧
+    advertisedSf (initialRecord ⟨['x'], 1, [], 1, false, ""⟩ [(7, true)]) s.log = some "0" := by
+  decide
 
 /-- Scheduling the refresh before the response write (the defect `finish_pair`'s comment warns
     about) is rejected by the ordering statement: completing pair-setup publishes first. -/
 theorem C18_early_refresh_counterexample :
     ∃ (later earlier : List Obs) (rid : Nat) (txt : List (String × String)),
       (runEarly (init ⟨['x'], 1, [], 1, false, ""⟩ [] []) [.request 0 (.pairSetupM5 7 true)]).log
-        = later ++ Obs.publish rid txt :: earlier ∧ ¬ ∃ conn, Obs.write conn rid ∈ earlier :=
+        = later ++ Obs.publish (some rid) txt :: earlier ∧ ¬ ∃ conn, Obs.write conn rid ∈ earlier :=
   ⟨[Obs.write 0 0], [], 0, _, rfl, by simp⟩
 
 /-! ## setup payload -/
@@ -312,14 +424,14 @@ example : (restart (fun r => r.length) ⟨65535, some 1⟩ (exDb ++ [⟨2, []⟩
 example : (run (init ⟨['x'], 1, [], 1, false, ""⟩ [] [(1, 7)])
     [.request 0 (.pairSetupM5 7 true), .execRun 0, .loopRun 0,
      .request 1 (.removePairing 7), .execRun 0, .loopRun 0]).log.map
-      (fun o => match o with | .write c r => (0, c, r) | .cipher c r => (1, c, r) | .publish r _ => (2, 0, r))
+      (fun o => match o with | .write c r => (0, c, r) | .cipher c r => (1, c, r) | .publish r _ => (2, 0, r.getD 99))
     = [(2, 0, 1), (0, 1, 1), (2, 0, 0), (0, 0, 0)] := by decide
 /-- the self-removal above closes connection 1 (after its response): a later request on it is
     not delivered, the refresh still follows the response -/
 example : (run (init ⟨['x'], 1, [], 1, false, ""⟩ [(7, true)] [(1, 7)])
     [.request 1 (.removePairing 7), .request 1 .other, .request 1 (.pairSetupM5 8 true),
      .execRun 0, .loopRun 0]).log.map
-      (fun o => match o with | .write c r => (0, c, r) | .cipher c r => (1, c, r) | .publish r _ => (2, 0, r))
+      (fun o => match o with | .write c r => (0, c, r) | .cipher c r => (1, c, r) | .publish r _ => (2, 0, r.getD 99))
     = [(2, 0, 0), (0, 1, 0)] := by decide
 example : (run (init ⟨['x'], 1, [], 1, false, ""⟩ [(7, true)] [(1, 7)])
     [.request 1 (.removePairing 7)]).closed = [1] := by decide
